@@ -378,18 +378,52 @@ def eval_model(rp):
         return ('%s: predict(c*y) differs from predict(y) for the SAME fitted model by %.3g' % (name, rel(p11, p12)),
                 'model:predict:%s' % name, None, False)
     # whole trajectory
+    cache = {}
+
+    def excused(e):
+        """conditioning probe (only reached when a trajectory comparison fails): the same fit on y with start and data
+        perturbed at the 1e-13 level in random DIRECTIONS (not a gain).  A deviation that such a perturbation reproduces is
+        rounding amplified by an ill-conditioned trajectory (collapsing class, diverging concentration, least_squares
+        stopping tolerance), not a dependence on the gains."""
+        if start != 'init':
+            return False
+        if 'v' not in cache:
+            pr = np.random.default_rng(rp['pick'] + 1)
+            ip = init + 1e-13 * pr.random(init.shape)
+            ip = ip / ip.sum(-2, keepdims=True)
+            dp = {}
+            for kk, vv in data.items():
+                if np.iscomplexobj(vv):
+                    dp[kk] = vv * (1 + 1e-13 * (pr.uniform(-1, 1, vv.shape) + 1j * pr.uniform(-1, 1, vv.shape)))
+                else:
+                    dp[kk] = vv * (1 + 1e-13 * pr.uniform(-1, 1, vv.shape))
+            try:
+                mp, _ = mm.fit(name, dp, ip, iterations=iters, **opts)
+                op = observables(name, mp)
+                vals = [relm(o1[kq], op[kq]) if 'covariance' in kq or 'projector' in kq else rel(o1[kq], op[kq]) for kq in o1]
+                vals.append(rel(p11, mm.predict(name, mp, dp, **pk)))
+                cache['v'] = max(vals)
+            except Exception:
+                cache['v'] = np.inf
+        return e <= 10 * cache['v']
     o1, o2 = observables(name, m1), observables(name, m2)
     for kq in o1:
         e = relm(o1[kq], o2[kq]) if 'covariance' in kq or 'projector' in kq else rel(o1[kq], o2[kq])
         if e > tol:
+            if excused(e):
+                return None, None, None, False
             return ('%s: fitted %s differs between fit(y) and fit(c*y) after %d iteration(s) by %.3g (relative)' % (name, kq, iters, e),
                     'model:fit:%s:%s' % (name, kq.split('.')[0]), None, False)
     if rel(p11, p22) > tol:
+        if excused(rel(p11, p22)):
+            return None, None, None, False
         return ('%s: posteriors of fit+predict differ between y and c*y after %d iteration(s) by %.3g' % (name, iters, rel(p11, p22)),
                 'model:fitpredict:%s' % name, None, False)
     # every in-loop E-step
     for it, (a, b) in enumerate(zip(tr1, tr2)):
         if 'affiliation' in a and rel(a['affiliation'], b['affiliation']) > tol:
+            if excused(rel(a['affiliation'], b['affiliation'])):
+                return None, None, None, False
             return ('%s: affiliation entering M-step %d differs between y and c*y by %.3g' % (name, it + 1, rel(a['affiliation'], b['affiliation'])),
                     'model:estep:%s' % name, None, False)
         if 'quadratic_form' in a and rel(a['quadratic_form'], b['quadratic_form']) > tol * max(1.0, np.abs(a['quadratic_form']).max()):
